@@ -31,6 +31,8 @@ PIX_VERTS = [
     [[2.0, 9.0, 12.0, 6.0, 1.0], [1.0, 2.0, 8.0, 12.0, 7.0]],
     [[-3.0, 4.0, 4.0, 0.5, -3.0, -5.0], [-2.0, -2.0, 3.0, 6.0, 3.0, 0.0]],
     [[10.0, 20.0, 15.0], [10.0, 10.0, 25.0]],
+    # a closed ring (the first vertex repeated at the end): a legal value
+    [[0.0, 8.0, 8.0, 0.0, 0.0], [0.0, 0.0, 6.0, 6.0, 0.0]],
 ]
 SKY_VERTS = [
     [[10.0, 10.2, 10.1], [20.0, 20.0, 20.2]],
